@@ -856,7 +856,48 @@ int main(int argc, char** argv) {
     fli.chunk = 16;
     fli.rule = "arrays of n in {0,1,2,10,20,31..34,40,41,63..65,70,100,130} scalars of width 1,2,3,6,12 bytes (numbers; width 6 also as strings), alone / as a member value / followed by another element, complete or with the last 1,2,3,7,13,31..33,63..65 bytes cut off, each looked up at 22 indices from 0 to 2^31-1 (around 32, 64, n); exact-size heap block (ASan) / page-end and view placements (production)";
     fams.push_back(fli);
+    // LK: keys that END in a cut-off escape, looked up with keys that match everything before the escape and go on: the
+    // matcher has to look at the escape itself, whose missing digits lie behind the closing quote - and, when the input
+    // is cut right there, behind the input
+    static const char* LK_TAIL[] = {"\\", "\\u", "\\u0", "\\u00", "\\u004", "\\u0041", "\\ud83d", "\\ud83d\\", "\\ud83d\\u", "\\ud83d\\ud", "\\ud83d\\ude0", "\\ud83d\\ude00", "\\n", "\\x"};
+    static const char* LK_AFTER[] = {"", "\"", "\":", "\":1", "\":1}", "\":1,\"zz\":2}"};
+    static const char* LK_PRE[] = {"", "z", "ab", "abcdefghijklmnopqrstuvwxyz0123"};
+    vr::Family flk;
+    flk.name = "LK_keys_with_cut_escapes";
+    flk.count = (uint64_t)(sizeof LK_TAIL / sizeof LK_TAIL[0]) * (sizeof LK_AFTER / sizeof LK_AFTER[0]) * (sizeof LK_PRE / sizeof LK_PRE[0]) * 2;
+    flk.group = "LK";
+    flk.chunk = 16;
+    flk.rule = "objects {\"<prefix><cut escape>... whose first key is a prefix (0, 1, 2, 30 bytes) followed by one of 14 complete or cut-off escapes (\\, \\u, \\u0 .. \\u0041, high surrogate with 0..6 bytes of the low one, \\n, \\x), the text ending right there or after the closing quote / colon / value / a second member; alone or as the second member; looked up by keys that equal the prefix, extend it by one, two or five bytes, or decode the complete escape";
+    fams.push_back(flk);
     check = [&](const vr::Family& f, uint64_t idx, vr::Ctx& ctx) {
+      if (f.name == "LK_keys_with_cut_escapes") {
+        unsigned second = (unsigned)(idx % 2);
+        idx /= 2;
+        const std::string pre = LK_PRE[idx % (sizeof LK_PRE / sizeof LK_PRE[0])];
+        idx /= (sizeof LK_PRE / sizeof LK_PRE[0]);
+        const std::string after = LK_AFTER[idx % (sizeof LK_AFTER / sizeof LK_AFTER[0])];
+        const std::string tail = LK_TAIL[idx / (sizeof LK_AFTER / sizeof LK_AFTER[0])];
+        std::string text = std::string(second ? "{\"k\":[1,{\"a\":2}]," : "{") + "\"" + pre + tail + after;
+        if (ctx.want_sample) ctx.sample(text);
+        ctx.nontriv();
+        std::vector<std::string> wanted = {pre, pre + "A", pre + "c", pre + "cd", pre + "\xf0\x9f\x98\x80", pre + "\n", pre + "A-and-more", "zz", "k"};
+        std::vector<uint8_t> scratch(text.size() + 256);
+#if HAVE_ASAN
+        ExactBuf b(text);
+#else
+        const uint8_t* pe = guard.at_end(text);
+#endif
+        for (size_t k = 0; k < wanted.size(); k++) {
+          JsonPointer jp({JsonPointerNode(wanted[k])});
+#if HAVE_ASAN
+          C11Res alone = c11_call((const uint8_t*)b.p, b.n, jp, text, "exact-heap", ctx, true);
+#else
+          C11Res alone = c11_call(pe, text.size(), jp, text, "page-end", ctx, true);
+#endif
+          c11_views(text, jp, 0, alone, scratch.data(), ctx);
+        }
+        return;
+      }
       if (f.name == "LI_index_sweep") {
         unsigned wrap = (unsigned)(idx % 3);
         idx /= 3;
